@@ -3,6 +3,7 @@ Props/C06.lean — each output element depends only on its own source, path inde
 -/
 import MagpyVerif.Lemmas.TrimeshBatch
 import MagpyVerif.Lemmas.Polyline
+import MagpyVerif.Lemmas.TrimeshSum
 import MagpyVerif.Lemmas.Level2Shape
 namespace MagpyVerif.C06
 open MagpyVerif MagpyVerif.Level2
@@ -239,6 +240,17 @@ theorem trimesh_row_independent_of_batch {M O V : Type} [DecidableEq M] [Add V]
 -- non-vacuity: meshes A B A with the middle observer inside A only: the middle row (mesh B) gets nothing
 example : MagpyVerif.Trimesh.addInside (fun (m : Nat) (x : Nat) => m == 0 && x == 1)
     [(⟨0, 0, 5, 0⟩ : MagpyVerif.Trimesh.Row Nat Nat Int), ⟨1, 1, 7, 0⟩, ⟨0, 1, 9, 0⟩] = [(0 : Int), 0, 9] := by decide
+
+/-- C06 (TriangularMesh, all four fields): the whole of `BHJM_magnet_trimesh` on a batch — one flat call of the triangle
+kernel with observers and polarizations repeated per face, the cut back into rows by `reshape(...).sum(axis=1)` (equal face
+counts) or `np.split` at the cumulative face counts (different face counts), division by μ₀ for H, the row-grouping loop
+for the inside term — gives every row exactly the value of the same operations applied to that row alone
+(`bhjmTrimeshRow`: the sum of its own triangle sheets at its own observer with its own polarization, plus its own
+polarization iff its observer is inside its own mesh). -/
+theorem trimesh_batch_rowwise {α M : Type} [Kern.Num α] [DecidableEq M] (f : Kern.Field) (meshId : Kern.MeshRow α → M)
+    (inside : M → V3 α → Bool) (rows : List (Kern.MeshRow α)) :
+    Kern.bhjmTrimesh f meshId inside rows = rows.map (Kern.bhjmTrimeshRow f meshId inside) :=
+  Kern.bhjmTrimesh_rowwise f meshId inside rows
 
 /-! ### kernels with batch-level control flow: Polyline -/
 
